@@ -273,8 +273,9 @@ theorem name_resolution (kw : List String) (ops : List Op) (q : SM.Path) (n : St
 /-- **Each visible name has one meaning, up to the two documented shadowings.**  After every sequence of
 operations, when the lookup of `n` in the namespace of `q` stops at the map `mapName`, every OTHER map of
 the chain that also holds `n` is
-* the model-level references, and the lookup stopped at a cells or an own reference of the space (the
-  space-level name takes precedence, as the property says), or
+* the model-level references, and the lookup stopped at a cells, an own reference or a special name of the
+  space (the space-level name takes precedence, as the property says; `model._self = 1` is accepted by the
+  code - model-level names are not checked - and every space still resolves `_self` to itself), or
 * the child spaces, and the lookup stopped at a model-level reference (the child space LOSES - the
   property's "space-level ones taking precedence" does not hold for child spaces, in the code as in the
   model: `global_may_shadow_child`; impossible at top level, `reachable_containers_disjoint`).
@@ -284,36 +285,68 @@ theorem each_visible_name_has_one_meaning (kw : List String) (ops : List Op) (q 
     (mapName : String) (d : Denot)
     (hf : chainFind (namespaceOf (St.run kw {} ops) q) n = some (mapName, d)) :
     ∀ e ∈ namespaceOf (St.run kw {} ops) q, e.1 ≠ mapName → (e.2.find n).isSome = true →
-      (e.1 = "global_refs" ∧ (mapName = "cells" ∨ mapName = "own_refs")) ∨
+      (e.1 = "global_refs" ∧ (mapName = "cells" ∨ mapName = "own_refs" ∨ mapName = "sys_refs")) ∨
       (e.1 = "spaces" ∧ mapName = "global_refs") := by
   rw [namespaceOf_eq] at hf ⊢
   exact chain_other_matches (run_invN kw ops) q n mapName d hf
 
-/-- the space's own containers and the special names are pairwise disjoint in every reachable state, and
-no model-level reference bears a special name -/
+/-- the space's own containers and the special names are pairwise disjoint in every reachable state
+(a model-level reference may bear a special name: `ModelImpl.set_attr` tests no name) -/
 theorem space_level_names_disjoint (kw : List String) (ops : List Op) (q : SM.Path) (n : String) :
     ¬ (((St.run kw {} ops).mem .cells q n).isSome = true ∧ ((St.run kw {} ops).mem .refs q n).isSome = true) ∧
     ¬ (((St.run kw {} ops).mem .cells q n).isSome = true ∧ n ∈ sysNames) ∧
     ¬ (((St.run kw {} ops).mem .refs q n).isSome = true ∧ n ∈ sysNames) ∧
     ¬ (((St.run kw {} ops).mem .cells q n).isSome = true ∧ n ∈ (St.run kw {} ops).childNames q) ∧
     ¬ (((St.run kw {} ops).mem .refs q n).isSome = true ∧ n ∈ (St.run kw {} ops).childNames q) ∧
-    ¬ (n ∈ sysNames ∧ n ∈ (St.run kw {} ops).childNames q) ∧
-    ¬ (n ∈ sysNames ∧ n ∈ (St.run kw {} ops).globals) :=
+    ¬ (n ∈ sysNames ∧ n ∈ (St.run kw {} ops).childNames q) :=
   space_level_disjoint (run_invN kw ops) q n
 
 /-- **A refused name is never visible**: after every sequence of operations every name visible in the
 namespace of any space is a valid name (an identifier that is no keyword and does not start with an
-underscore) or one of the three special names - whatever names the operations asked for. -/
+underscore), one of the three special names, or a model-level reference - whatever names the operations
+asked for.  Model-level references are the exception because the code never refuses their names:
+`model.name = value` (`EditableParent.__setattr__` -> `ModelImpl.set_attr`) has no `is_valid_name` test,
+so `model._x = 1` is accepted and `_x` is visible in every space (`unchecked_model_level_name_is_visible`).
+For every name that is no model-level reference the statement has its full strength. -/
 theorem refused_names_never_visible (kw : List String) (ops : List Op) (q : SM.Path) (n : String)
-    (hbad : Names.isValidName kw n = false) (hs : n ∉ sysNames) :
+    (hbad : Names.isValidName kw n = false) (hs : n ∉ sysNames) (hg : n ∉ (St.run kw {} ops).globals) :
     chainFind (namespaceOf (St.run kw {} ops) q) n = none := by
   rw [namespaceOf_eq]
   cases hf : chainFind ((St.run kw {} ops).codeChain q) n with
   | none => rfl
   | some r =>
-    rcases visible_valid (run_invN kw ops) q n (by rw [hf]; rfl) with h | h
+    rcases visible_valid (run_invN kw ops) q n (by rw [hf]; rfl) with h | h | h
     · rw [hbad] at h; cases h
     · exact absurd h hs
+    · exact absurd h hg
+
+/-- the same as a classification of everything visible: a valid name, a special name, or a model-level
+reference -/
+theorem visible_names_are_valid_special_or_model_level (kw : List String) (ops : List Op) (q : SM.Path) (n : String)
+    (hv : (chainFind (namespaceOf (St.run kw {} ops) q) n).isSome = true) :
+    Names.isValidName kw n = true ∨ n ∈ sysNames ∨ n ∈ (St.run kw {} ops).globals := by
+  rw [namespaceOf_eq] at hv
+  exact visible_valid (run_invN kw ops) q n hv
+
+/-- **the names of model-level references are not checked** (the behaviour of the code): every name that is
+not the name of a top-level space is accepted by `model.name = value`, valid or not, and is then visible in
+the namespace of every space -/
+theorem unchecked_model_level_name_is_visible (kw : List String) (ops : List Op) (n : String) (q : SM.Path)
+    (hn : n ∉ (St.run kw {} ops).childNames []) :
+    ((St.run kw {} ops).step kw (.setGlobal n)).2 = true ∧
+    (chainFind (namespaceOf ((St.run kw {} ops).step kw (.setGlobal n)).1 q) n).isSome = true := by
+  have hacc : ((St.run kw {} ops).apply kw (.setGlobal n)).isSome = true := by
+    rw [apply_isSome]
+    simp only [St.accepts, St.acceptsSetGlobal, Bool.not_eq_true', List.contains_eq_mem, decide_eq_false_iff_not]
+    exact hn
+  unfold St.step
+  cases hop : (St.run kw {} ops).apply kw (.setGlobal n) with
+  | none => rw [hop] at hacc; cases hacc
+  | some st' =>
+    refine ⟨rfl, ?_⟩
+    rw [namespaceOf_eq]
+    have := (apply_spec kw _ st' (run_inv kw ops).wf.keys (.setGlobal n) hop).2 n
+    exact global_visible st' q n (this.mpr (Or.inr rfl))
 
 /-- the name test the mechanism's own checks use (`St.kindOf`: `_can_add`, `new_ref`, `set_attr`) is the
 lookup in this chain - for every name but the three special ones, which are no valid names -/
@@ -341,7 +374,19 @@ example : chainFind (namespaceOf (St.run [] {} nsOps) ["B"]) "_space" = some ("s
 example : chainFind (namespaceOf (St.run [] {} nsOps) ["B"]) "v" = none := by decide
 -- a refused name: the request is made, nothing becomes visible
 example : chainFind (namespaceOf (St.run ["for"] {} (nsOps ++ [.setRef ["A"] "for" 1, .setRef ["A"] "_p" 1])) ["A"]) "for" = none :=
-  refused_names_never_visible ["for"] _ ["A"] "for" (by decide) (by decide)
+  refused_names_never_visible ["for"] _ ["A"] "for" (by decide) (by decide) (by decide)
+-- ... but a model-level reference `_x` (and a keyword, and a special name) IS accepted and visible in every space,
+-- as in the code (`model._x = 1`); `_self` still resolves to the space
+example : ((St.run ["for"] {} nsOps).step ["for"] (.setGlobal "_x")).2 = true := by decide
+example : chainFind (namespaceOf (St.run ["for"] {} (nsOps ++ [.setGlobal "_x", .setGlobal "for", .setGlobal "_self"])) ["B"]) "_x"
+    = some ("global_refs", .global) := by decide
+example : chainFind (namespaceOf (St.run ["for"] {} (nsOps ++ [.setGlobal "_x", .setGlobal "for", .setGlobal "_self"])) ["A"]) "for"
+    = some ("global_refs", .global) := by decide
+example : chainFind (namespaceOf (St.run ["for"] {} (nsOps ++ [.setGlobal "_x", .setGlobal "for", .setGlobal "_self"])) ["A"]) "_self"
+    = some ("sys_refs", .sys) := by decide
+example := unchecked_model_level_name_is_visible ["for"] nsOps "_x" ["B"] (by decide)
+-- the name of a top-level space is refused
+example : ((St.run [] {} nsOps).step [] (.setGlobal "A")).2 = false := by decide
 
 /-! ## `rename_space` (`space.rename(name)`)
 
